@@ -6,7 +6,10 @@
    Observation: one token per step:  <outcome>[:i=<state>...]  for the objects the step may have written.
    Pool of 3 objects.  A moved-from object is shown as MF (only its validity is compared) and every later
    operation that would USE it (other than assigning to it, constructing over it or destroying it) is not
-   executed: token K. *)
+   executed: token K.  v = std::move(v) (ma,i,i) leaves v "moved-from" in this sense.
+   Aliasing arguments: ea,i,pos,k = emplace(begin()+pos, v[k]); ba/ia/pa,i,k = emplace_back/insert/push_back(v[k]);
+   sr,i,pos,a,b = insert(begin()+pos, begin()+a, begin()+b); ps,i,a,b = push_back(begin()+a, begin()+b) of the same
+   vector; not executed (S) unless k < size resp. a <= b <= size. *)
 let npool = 3
 let n2i = int_of_nat and i2n = nat_of_int
 
@@ -44,6 +47,13 @@ let parse_op (w : string) : pop =
     | ["po"; i] -> OPop (n i)
     | ["er"; i; p] -> OErase (n i, n p)
     | ["de"; i] -> ODestroy (n i)
+    (* arguments aliasing the container itself *)
+    | ["ea"; i; p; k] -> OEmplaceAt (n i, n p, n k)
+    | ["ba"; i; k] -> OEmplaceBackAt (n i, n k)
+    | ["ia"; i; k] -> OInsertAt (n i, n k)
+    | ["pa"; i; k] -> OPushBackAt (n i, n k)
+    | ["sr"; i; p; a; b] -> OInsertSelfRange (n i, n p, n a, n b)
+    | ["ps"; i; a; b] -> OPushBackSelfRange (n i, n a, n b)
     | _ -> failwith "op" in
   { o; plan; name = List.hd f }
 
@@ -54,19 +64,24 @@ let writes o = match o with
   | ONew (i, _) | ONewFrom (i, _, _) | ONewList (i, _) | OCopy (i, _) | OAssign (i, _) | OListAssign (i, _)
   | OAt (i, _) | OGet (i, _) | OEmplace (i, _, _) | OEmplaceBack (i, _) | OInsert (i, _) | OInsertMove (i, _)
   | OPushBack (i, _) | OInsertRange (i, _, _) | OInsertList (i, _, _) | OPushBackRange (i, _) | OPop i | OErase (i, _)
-  | ODestroy i -> [n2i i]
+  | ODestroy i | OEmplaceAt (i, _, _) | OEmplaceBackAt (i, _) | OInsertAt (i, _) | OPushBackAt (i, _)
+  | OInsertSelfRange (i, _, _, _) | OPushBackSelfRange (i, _, _) -> [n2i i]
 let uses o = match o with
   | ONew _ | ONewFrom _ | ONewList _ | OListAssign _ | ODestroy _ -> []
   | OCopy (_, j) | OMove (_, j) | OAssign (_, j) | OMoveAssign (_, j) -> [n2i j]
   | OAt (i, _) | OGet (i, _) | OEmplace (i, _, _) | OEmplaceBack (i, _) | OInsert (i, _) | OInsertMove (i, _)
-  | OPushBack (i, _) | OInsertRange (i, _, _) | OInsertList (i, _, _) | OPushBackRange (i, _) | OPop i | OErase (i, _) -> [n2i i]
+  | OPushBack (i, _) | OInsertRange (i, _, _) | OInsertList (i, _, _) | OPushBackRange (i, _) | OPop i | OErase (i, _)
+  | OEmplaceAt (i, _, _) | OEmplaceBackAt (i, _) | OInsertAt (i, _) | OPushBackAt (i, _)
+  | OInsertSelfRange (i, _, _, _) | OPushBackSelfRange (i, _, _) -> [n2i i]
 let needs_copy o = match o with
   | ONewFrom _ | ONewList _ | OCopy _ | OAssign _ | OListAssign _ | OInsert _ | OPushBack _ | OInsertRange _
-  | OInsertList _ | OPushBackRange _ -> true
+  | OInsertList _ | OPushBackRange _
+  | OEmplaceAt _ | OEmplaceBackAt _ | OInsertAt _ | OPushBackAt _ | OInsertSelfRange _ | OPushBackSelfRange _ -> true
   | _ -> false
 (* positions are turned into iterators begin()+pos by the C++ driver: only 0..capacity is a valid pointer *)
 let position o = match o with
-  | OEmplace (i, p, _) | OInsertRange (i, p, _) | OInsertList (i, p, _) | OErase (i, p) -> Some (n2i i, n2i p)
+  | OEmplace (i, p, _) | OInsertRange (i, p, _) | OInsertList (i, p, _) | OErase (i, p)
+  | OEmplaceAt (i, p, _) | OInsertSelfRange (i, p, _, _) -> Some (n2i i, n2i p)
   | _ -> None
 let list_len o = match o with
   | ONewList (_, xs) | OListAssign (_, xs) | OInsertList (_, _, xs) -> List.length xs
@@ -130,7 +145,7 @@ let model (ws : string list) : string =
           let (pool', r) = pstep (match p.plan with Some k -> Some (i2n k) | None -> None) p.o !pool in
           pool := pool';
           (match p.o, r with
-           | (OMove (i, j) | OMoveAssign (i, j)), Done -> mf.(n2i j) <- true; mf.(n2i i) <- false
+           | (OMove (i, j) | OMoveAssign (i, j)), Done -> mf.(n2i i) <- false; mf.(n2i j) <- true
            | (ONew (i, _) | ONewFrom (i, _, _) | ONewList (i, _) | OCopy (i, _) | ODestroy i), (Done | Raised | Faulted) -> mf.(n2i i) <- false
            | (OAssign (i, _) | OListAssign (i, _)), Done -> mf.(n2i i) <- false
            | _ -> ());
@@ -196,20 +211,22 @@ let oracle (ws : string list) (obs : string) : bool =
               let old = aget before (i2n i) in
               match p.o with
               | ONewFrom _ | ONewList _ | OCopy _ -> s = "X" && (pool := aset !pool (i2n i) None; mf.(i) <- false; true)
-              | OEmplaceBack _ | OInsert _ | OInsertMove _ | OPushBack _ | OAssign _ | OListAssign _ ->
+              | OEmplaceBack _ | OInsert _ | OInsertMove _ | OPushBack _ | OAssign _ | OListAssign _
+              | OEmplaceBackAt _ | OInsertAt _ | OPushBackAt _ ->
                   (match old with Some a -> if mf.(i) then s = "MF" else s = render_abs a | None -> false)
-              | OEmplace _ | OErase _ | OInsertRange _ | OInsertList _ | OPushBackRange _ ->
+              | OEmplace _ | OErase _ | OInsertRange _ | OInsertList _ | OPushBackRange _
+              | OEmplaceAt _ | OInsertSelfRange _ | OPushBackSelfRange _ ->
                   (match old, parse_state s with
                    | Some (c, l), Some (c', l') ->
                        c' = c && nonfresh l' &&
-                       (match p.o with OEmplace _ | OErase _ -> List.length l' = List.length l | _ -> List.length l' >= List.length l) &&
+                       (match p.o with OEmplace _ | OErase _ | OEmplaceAt _ -> List.length l' = List.length l | _ -> List.length l' >= List.length l) &&
                        (pool := aset !pool (i2n i) (Some (c', l')); true)
                    | _ -> false)
               | _ -> false) objs
           end else begin
             pool := pool';
             (match p.o, r with
-             | (OMove (i, j) | OMoveAssign (i, j)), Done -> mf.(n2i j) <- true; mf.(n2i i) <- false
+             | (OMove (i, j) | OMoveAssign (i, j)), Done -> mf.(n2i i) <- false; mf.(n2i j) <- true
              | (ONew (i, _) | ONewFrom (i, _, _) | ONewList (i, _) | OCopy (i, _) | ODestroy i), (Done | Raised) -> mf.(n2i i) <- false
              | (OAssign (i, _) | OListAssign (i, _)), Done -> mf.(n2i i) <- false
              | _ -> ());
